@@ -18,6 +18,62 @@ MONITORED = ['no-diffusion mode: fconc equals the PSD sum only if x_beta is cons
 ASSUMPTIONS = ['total precipitate fraction < 1 for the balance identity (the saturated branch is a separate theorem)']
 TRUSTED = ['run-time wrappers of tools/lib/kwnruns.py log inputs/outputs of _calcMassBalance faithfully']
 
+# ------------------------------------------------------------------ tie 1: the mass balance REGENERATED from the source
+def regenerate(ctx):
+    """run the real PrecipitateModel._calcMassBalance on symbolic state (2 phases x 2 elements x 3 size classes, populated,
+    unsaturated, unclamped: the path condition is asserted) and emit the recorded quantities as Lean definitions"""
+    import os, sys
+    sys.path.insert(0, os.path.join(vlib.VERIF, 'tools', 'py2lean'))
+    import sym
+    from sym import Sym, emit_def, HEADER
+    vlib.use_repo()
+    from kawin.precipitation import PrecipitateModel, VolumeParameter
+    P, E, n = 2, 2, 3
+    m = PrecipitateModel(phases=['P0', 'P1'], elements=['E0', 'E1'])
+    m.setVolumeAlpha(1e-5, VolumeParameter.MOLAR_VOLUME, 4)
+    for p in range(P):
+        m.setPBMParameters(cMin=1e-10, cMax=1e-9, bins=n, minBins=1, maxBins=10, phase=m.phases[p])
+        m.setVolumeBeta(1e-5, VolumeParameter.MOLAR_VOLUME, 4, phase=m.phases[p])
+        m.setInterfacialEnergy(0.3, phase=m.phases[p])
+        m.setNucleationSite('bulk', phase=m.phases[p])
+    V = lambda name, val: Sym.var(name, val)
+    x = [np.array([V('(N %d %d)' % (p, i), 1e20 * (1 + i + p)) for i in range(n)], dtype=object) for p in range(P)]
+    for p in range(P):
+        m.PBM[p].PSDsize = np.array([V('(R %d %d)' % (p, i), 1e-9 * (1 + i)) for i in range(n)], dtype=object)
+    m.PSDXalpha = [None] * P
+    m.PSDXbeta = [np.array([[V('(xb %d %d %d)' % (p, j, e), 0.1 + 0.01 * j + 0.02 * e) for e in range(E)] for j in range(n + 1)], dtype=object)
+                  for p in range(P)]
+    m.matrixParameters.volume = type('Vol', (), {'Vm': V('vma', 1.0e-5)})()
+    for p in range(P):
+        pp = m.precipitateParameters[p]
+        pp.volume = type('Vol', (), {'Vm': V('(vmb %d)' % p, 0.9e-5 + 0.2e-5 * p)})()
+        pp.nucleation = type('Nuc', (), {'volumeFactor': V('(vfac %d)' % p, 4.18879 - p)})()
+    m.pData.composition = m.pData.composition.astype(object)
+    m.pData.composition[0] = np.array([V('(x0 %d)' % e, 0.05 + 0.01 * e) for e in range(E)], dtype=object)
+    Y = m.pData.copySlice(0)
+    for a in Y.ATTRIBUTES:
+        setattr(Y, a, getattr(Y, a).astype(object))
+    sym.PATH.clear()
+    out = m._calcMassBalance(0.0, x, Y)
+    path = [(op, bool(r)) for op, _, _, r in sym.PATH]
+    # path condition of the traced run: both phases populated (density >= floor), uncapped, total fraction < 1, no clamp
+    want = [('lt', False), ('le', True), ('lt', False), ('le', True), ('lt', True), ('lt', False), ('lt', False)]
+    if path != want:
+        raise RuntimeError('path condition of the traced _calcMassBalance changed: %r' % (path,))
+    outs = [out.composition[0][0], out.composition[0][1], out.volFrac[0][0], out.volFrac[0][1],
+            out.fconc[0][0][0], out.fconc[0][0][1], out.fconc[0][1][0], out.fconc[0][1][1],
+            out.precipitateDensity[0][0], out.Ravg[0][0]]
+    if not all(isinstance(o, Sym) for o in outs):
+        raise RuntimeError('a recorded quantity lost its symbols in the trace')
+    params = [('N', 'Nat → Nat → α'), ('R', 'Nat → Nat → α'), ('xb', 'Nat → Nat → Nat → α'), 'vma', ('vmb', 'Nat → α'),
+              ('vfac', 'Nat → α'), ('x0', 'Nat → α')]
+    src, _ = emit_def('mb', params, outs, doc='PrecipitateModel._calcMassBalance traced on 2 phases x 2 elements x 3 classes '
+                      '(populated, unsaturated, unclamped path)', names=['comp0', 'comp1', 'vf0', 'vf1', 'fc00', 'fc01', 'fc10', 'fc11', 'dens0', 'ravg0'])
+    text = HEADER + '\nnamespace KawinV.Gen.C01\n\n' + src + 'end KawinV.Gen.C01\n'
+    ch = vlib.write_if_changed(os.path.join(vlib.LEAN, 'KawinV', 'Gen', 'C01MassBalance.lean'), text)
+    return ['KawinV/Gen/C01MassBalance.lean'] if ch else []
+
+
 SITES = ['bulk', 'dislocations', 'grain boundaries', 'grain edges', 'grain corners']
 
 
@@ -78,6 +134,37 @@ def synth_record(rng):
     m._calcMassBalance(0.0, x, Y)
     rec = log.mb[-1]
     rec['tag'] = 'synthetic:%s:%s' % (scen, ','.join(kinds))
+    return rec
+
+
+def gen_record(rng):
+    """a 2-phase x 2-element x 3-class state on the path the regenerated definitions were traced on"""
+    vlib.use_repo()
+    from kawin.precipitation import PrecipitateModel, VolumeParameter
+    r = np.random.default_rng(rng.getrandbits(32))
+    m = PrecipitateModel(phases=['P0', 'P1'], elements=['E0', 'E1'])
+    m.setVolumeAlpha(1e-5 * r.uniform(0.5, 2), VolumeParameter.MOLAR_VOLUME, 4)
+    m.setGrainBoundaryEnergy(0.3)
+    x = []
+    m.PSDXalpha = [None, None]; m.PSDXbeta = [None, None]
+    for p in range(2):
+        ph = m.phases[p]
+        m.setPBMParameters(cMin=10 ** r.uniform(-10, -9), cMax=1e-8, bins=3, minBins=1, maxBins=6, phase=ph)
+        m.setVolumeBeta(1e-5 * r.uniform(0.5, 2), VolumeParameter.MOLAR_VOLUME, 4, phase=ph)
+        m.setInterfacialEnergy(float(r.uniform(0.2, 0.5)), phase=ph)
+        m.setNucleationSite(rng.choice(SITES), phase=ph)
+        c = (m.matrixParameters.volume.Vm / m.precipitateParameters[p].volume.Vm) * m.precipitateParameters[p].nucleation.volumeFactor
+        N = 10 ** r.uniform(15, 22, 3)
+        N *= r.uniform(1e-4, 0.2) / (c * float(np.sum(N * m.PBM[p].PSDsize ** 3)))
+        x.append(N); m.PBM[p].PSD = N.copy()
+        m.PSDXbeta[p] = r.uniform(0.0, 0.2, (4, 2))
+    m.pData.composition[0] = r.uniform(0.03, 0.08, 2)
+    log = kwnruns.instrument(m)
+    m._calcMassBalance(0.0, x, m.pData.copySlice(0))
+    rec = log.mb[-1]
+    rec['tag'] = 'generated-path'
+    if np.sum(rec['volFrac']) >= 1 or np.any(rec['comp'] <= 0) or np.any(rec['dens'] < rec['minDens']):
+        return None
     return rec
 
 
@@ -259,6 +346,24 @@ def corr(ctx, oracle_only=False, nsynth=None):
         recs += log.mb
     lines = [line_of(r) for r in recs]
     model_out = vlib.run_driver(PROP, lines) if (ctx.driver_ok and not oracle_only) else None
+    # translator validation: the regenerated definitions evaluated on Float vs the real call (2 phases x 2 elements x 3 classes)
+    if ctx.driver_ok and not oracle_only:
+        gl, gr = [], []
+        for _ in range(ctx.n(60, 600)):
+            r = gen_record(ctx.rng)
+            if r is None:
+                continue
+            gl.append('mb.gen %s %s %s %s %s %s %s' % (enc_list(np.concatenate(r['x'])), enc_list(np.concatenate(r['size'])),
+                      enc_list(np.concatenate([a.ravel() for a in r['xbeta']])), f2b(1.0), enc_list([1.0 / v for v in r['volRatio']]),
+                      enc_list(r['volumeFactor']), enc_list(r['x0'])))
+            gr.append(r)
+        for a, r in zip(vlib.run_driver(PROP, gl), gr):
+            t = Toks(a)
+            want = [r['comp'][0], r['comp'][1], r['volFrac'][0], r['volFrac'][1], r['fconc'][0, 0], r['fconc'][0, 1], r['fconc'][1, 0], r['fconc'][1, 1],
+                    r['dens'][0], r['Ravg'][0]]
+            res.case(('generated', tuple(np.round(r['volFrac'], 12))), True); res.count('generated-def-validated')
+            if not t.ok or not vlib.all_close(t.flts(), want, 1e-9, 1e-300):
+                res.disagree('regenerated mass-balance definitions vs the real call', brief(r), [float(w) for w in want], a)
     for i, r in enumerate(recs):
         nontriv = bool(np.any(r['dens'] >= r['minDens']))
         res.case((r['tag'], r['n'], r['t'], tuple(np.round(r['volFrac'], 14))), nontriv)
